@@ -1717,6 +1717,8 @@ class sptensor:
             shapeArray = np.array(self.shape)
             if not np.array_equal(factor.shape, shapeArray[dims]):
                 assert False, "Size mismatch in scale"
+            if self.subs.size == 0:  # no stored entries, nothing to scale
+                return self.copy()
             return ttb.sptensor(
                 self.subs,
                 self.vals * factor[self.subs[:, dims]][:, None],
@@ -1726,6 +1728,8 @@ class sptensor:
             shapeArray = np.array(self.shape)
             if not np.array_equal(factor.shape, shapeArray[dims]):
                 assert False, "Size mismatch in scale"
+            if self.subs.size == 0:  # no stored entries, nothing to scale
+                return self.copy()
             return ttb.sptensor(
                 self.subs, self.vals * factor[self.subs[:, dims]], self.shape
             )
@@ -1733,6 +1737,8 @@ class sptensor:
             shapeArray = np.array(self.shape)
             if factor.shape[0] != shapeArray[dims]:
                 assert False, "Size mismatch in scale"
+            if self.subs.size == 0:  # no stored entries, nothing to scale
+                return self.copy()
             return ttb.sptensor(
                 self.subs,
                 self.vals * factor[self.subs[:, dims].transpose()[0]][:, None],
